@@ -701,7 +701,8 @@ class _AttrConst(ast.NodeTransformer):
         return node
 
 
-def _literal_elements(repo: Optional[Repo], ci: Optional[ClassInfo], e: ast.expr, env: Dict[str, List[ast.expr]]) -> Optional[List[ast.expr]]:
+def _literal_elements(repo: Optional[Repo], ci: Optional[ClassInfo], e: ast.expr, env: Dict[str, List[ast.expr]],
+                      indexable: Optional[Set[str]] = None) -> Optional[List[ast.expr]]:
     """The elements of an iterable that is known when reading the code: a tuple/list display, range(<small constant>),
     a local bound to such a display, or a class/module constant that folds to a short tuple of strings / numbers."""
     if isinstance(e, (ast.Tuple, ast.List)) and not any(isinstance(x, ast.Starred) for x in e.elts):
@@ -724,6 +725,17 @@ def _literal_elements(repo: Optional[Repo], ci: Optional[ClassInfo], e: ast.expr
         if all(c is not None for c in cols):
             n = min(len(c) for c in cols)
             return [ast.Tuple(elts=[c[i] for c in cols], ctx=ast.Load()) for i in range(n)]
+        # zip(<known names>, <result of unpack(...)>): the unpacked tuple is read by position.  (Assumes the format yields at
+        # least as many values as there are names; the rules that read the result compare the two counts.)
+        known = [c for c in cols if c is not None]
+        if known and indexable and all(c is not None or (isinstance(a, ast.Name) and a.id in indexable) for c, a in zip(cols, e.args)):
+            n = min(len(c) for c in known)
+            rows = []
+            for i in range(n):
+                rows.append(ast.Tuple(elts=[c[i] if c is not None else ast.Subscript(value=ast.Name(id=a.id, ctx=ast.Load()),
+                                                                                     slice=ast.Constant(value=i), ctx=ast.Load())
+                                            for c, a in zip(cols, e.args)], ctx=ast.Load()))
+            return rows
     is_range = isinstance(e, ast.Call) and isinstance(e.func, ast.Name) and e.func.id == "range"
     is_const_name = isinstance(e, (ast.Name, ast.Attribute))
     if repo is not None and (is_range or is_const_name):
@@ -791,6 +803,15 @@ def unroll(fn: ast.FunctionDef, repo: Optional[Repo] = None, ci: Optional[ClassI
                 node = self.generic_visit(node)
                 # chain.from_iterable(<generator over known elements>) / list(<generator>)
                 f = norm(node.func)
+                # f(*values) with `values` a list display built in this function
+                if any(isinstance(a, ast.Starred) and isinstance(a.value, ast.Name) and a.value.id in env for a in node.args):
+                    args = []
+                    for a in node.args:
+                        if isinstance(a, ast.Starred) and isinstance(a.value, ast.Name) and a.value.id in env:
+                            args.extend(copy.deepcopy(x) for x in env[a.value.id])
+                        else:
+                            args.append(a)
+                    node.args = args
                 if f.split(".")[-1] in ("from_iterable", "list", "tuple", "chain") and node.args:
                     args = []
                     for a in node.args:
@@ -803,6 +824,15 @@ def unroll(fn: ast.FunctionDef, repo: Optional[Repo] = None, ci: Optional[ClassI
                 return node
         return _AttrConst().visit(X().visit(e))
 
+    stores: Dict[str, int] = {}
+    for n0 in ast.walk(new):
+        if isinstance(n0, ast.Name) and isinstance(n0.ctx, (ast.Store, ast.Del)):
+            stores[n0.id] = stores.get(n0.id, 0) + 1
+    # locals bound exactly once, to the tuple returned by unpack(...)
+    indexable: Set[str] = {st0.targets[0].id for st0 in ast.walk(new) if isinstance(st0, ast.Assign) and len(st0.targets) == 1
+                           and isinstance(st0.targets[0], ast.Name) and stores.get(st0.targets[0].id) == 1
+                           and isinstance(st0.value, ast.Call) and norm(st0.value.func) in ("unpack", "struct.unpack")}
+
     def block(stmts: List[ast.stmt], env: Dict[str, List[ast.expr]]) -> List[ast.stmt]:
         env = dict(env)
         out: List[ast.stmt] = []
@@ -810,7 +840,7 @@ def unroll(fn: ast.FunctionDef, repo: Optional[Repo] = None, ci: Optional[ClassI
             # --- loops over known elements
             if isinstance(st, ast.For) and not st.orelse:
                 it = expr_unroll(copy.deepcopy(st.iter), env)
-                els = _literal_elements(repo, ci, it, env)
+                els = _literal_elements(repo, ci, it, env, indexable)
                 def own_flow(stmts) -> bool:
                     for b in stmts:
                         if isinstance(b, (ast.Break, ast.Continue)):
